@@ -150,7 +150,7 @@ def compare_levels(d_out: str, n_out: str, files: dict[str, str]) -> list[tuple[
     L0 = (file, line, severity, message); L1 = start column; L2 = end position."""
     pd = [e for e in diag.parse(d_out) if e["file"] is not None]
     pn = [e for e in diag.parse(n_out) if e["file"] is not None]
-    l0 = lambda e: (e["file"], e["line"], e["sev"], e["msg"])
+    l0 = lambda e: (e["file"] or "", e["line"] if e["line"] is not None else -1, e["sev"], e["msg"])
     if sorted(map(l0, pd)) != sorted(map(l0, pn)):
         from checks.c03 import _codes
         sd, sn = set(map(l0, pd)), set(map(l0, pn))
